@@ -22,7 +22,7 @@ RULE = ("scenario = 1..3 clients x 1..8 messages (requests and notifications ove
         "notification name, random method strings; params of every JSON shape; ids 0/negative/big/strings/empty) x handler behaviour per call "
         "(buggify: returns / raises / returns nonsense / sleeps first / raises after sleeping) x dispatch mode (serial / task per message); "
         "non-trivial = a notification was dispatched to something other than notifications/initialized, or a handler fault fired, or dispatches overlapped")
-PROBES = ["notification_unregistered_method", "notification_to_request_method", "handler_raised", "handler_returned_nonsense",
+PROBES = ["second_server_instance", "notification_unregistered_method", "notification_to_request_method", "handler_raised", "handler_returned_nonsense",
           "dispatches_overlapped", "unknown_tool_or_resource", "unhashable_name", "empty_method", "id_zero_or_empty"]
 TIERS = {"quick": {"runs": 25000, "wall": 45.0}, "thorough": {"runs": 2000000, "wall": 560.0}}
 ASSUMPTIONS = [
@@ -37,7 +37,7 @@ STD_NOTIFS = ["notifications/initialized", "notifications/cancelled", "notificat
               "notifications/tools/list_changed", "notifications/prompts/list_changed"]
 CORE = ["initialize", "ping", "tools/list", "tools/call", "resources/list", "resources/read", "custom/ok", "custom/raises", "custom/slow",
         "custom/raises_empty", "custom/raises_unprintable"]
-RANDOM_METHODS = ["", " ", "nope", "tools/call/extra", "rpc.internal", "TOOLS/LIST", "ünï/codé", "notifications/", "a" * 200, "tools\ncall"]
+RANDOM_METHODS = ["", " ", "nope", "other/only", "tools/call/extra", "rpc.internal", "TOOLS/LIST", "ünï/codé", "notifications/", "a" * 200, "tools\ncall"]
 IDS = [0, 1, -5, 2 ** 53 + 1, 10 ** 30, "", "abc", "0", "id with space", "ü", "x" * 100]
 BEHAV = ["ok_str", "ok_dict", "ok_list", "ok_none", "raise_value", "raise_key", "raise_runtime", "raise_type", "nonsense_obj", "nonsense_set",
          "nonsense_badstr", "sleep_ok", "sleep_raise", "raise_empty", "raise_assert", "raise_notimpl", "raise_unprintable"]
@@ -78,10 +78,12 @@ def generate(rng: random.Random, tier: str) -> dict:
         if not is_notif:
             m["id"] = rng.choice(IDS)
         msgs.append(m)
-    return {"v": 1, "mode": rng.choice(["serial", "task_per_message"]), "msgs": msgs}
+    return {"v": 1, "mode": rng.choice(["serial", "task_per_message"]), "msgs": msgs, "second_server": rng.random() < 0.3}
 
 
 def simplify(scn):
+    if scn.get("second_server"):
+        c = copy.deepcopy(scn); c["second_server"] = False; yield c
     if scn["mode"] != "serial":
         c = copy.deepcopy(scn); c["mode"] = "serial"; yield c
     for i, m in enumerate(scn["msgs"]):
@@ -209,6 +211,17 @@ def execute(scn: dict) -> dict:
         ph.register_method("custom/raises", custom_raises)
         ph.register_method("custom/slow", custom_slow)
         known_sid = ph.session_manager.create_session({"name": "pre"}, "2025-06-18")
+        if scn.get("second_server"):
+            # an unrelated second server object built (and given other handlers) after the first: it must not affect the first
+            other = MCPServer("other-server")
+
+            async def other_tool(**kw):
+                return "from-other-server"
+
+            other.register_tool("other-only", other_tool, {"type": "object"}, "other")
+            other.protocol_handler.register_method("other/only", custom_ok)
+            other.protocol_handler.register_method("custom/raises", custom_ok)   # same name, different behaviour, on the OTHER server
+            sim.probe("second_server_instance")
 
         async def dispatch(k, m):
             d = {"jsonrpc": "2.0", "method": m["method"]}
